@@ -6,6 +6,6 @@ AllFalse == [n \in Node |-> FALSE]
 NoWrap == [n \in Node |-> "none"]
 Empty == [n \in Node |-> {}]
 OneFault == {f \in [Node -> {"none", "before", "init", "after"}] : Cardinality({n \in Node : f[n] # "none"}) <= 1}
-Fam == {[single |-> g, selfOpt |-> AllFalse, slice |-> Empty, sliceOpt |-> AllFalse, lazy |-> lz, wrap |-> NoWrap, fail |-> fl, procs |-> <<>>, mode |-> md, rorder |-> <<>>] :
+Fam == {[single |-> g, selfOpt |-> AllFalse, slice |-> Empty, sliceOpt |-> AllFalse, lazy |-> lz, wrap |-> NoWrap, fail |-> fl, procs |-> <<>>, mode |-> md, rorder |-> <<>>, ilook |-> NoLook] :
           g \in [Node -> SUBSET Node], lz \in SUBSET Node, fl \in OneFault, md \in [Node -> Modes]}
 =============================================================================
